@@ -226,6 +226,62 @@ fn gen_snapshot(rng: &mut Rng, i: usize) -> Job {
     Job { src: s, class: class.to_string(), expected: Some(expected), oracle: None, model: None, alias_model: None, send_model, scheds: schedules(rng) }
 }
 
+/// A channel handed over through another channel WITH VALUES PENDING in it: directly, inside a struct, an array, a
+/// variant; values written to the inner channel before the outer write and between outer write and outer read; the
+/// sender finishes at once / drops its handle and allocates until its collector has run / stays alive (control); the
+/// receiver picks the outer message up late.  The inner channel must deliver exactly what was written to it, in order.
+fn gen_handover(rng: &mut Rng, i: usize) -> Job {
+    let n = rng.range(1, 5);
+    let extra = if i % 2 == 0 { rng.range(1, 3) } else { 0 };
+    let base = rng.range(10, 90);
+    let mut s = String::from(DECLS);
+    s.push_str("type Carrier = {\n  ch: channel<int>\n  n: int\n}\nfn unwrap_ch(o: option<channel<int>>) -> channel<int> {\n  match o {\n    .some(x) -> x\n    .none -> panic(\"none\")\n  }\n}\n");
+    let (carrier, ty, wrap, unwrap): (&str, &str, &str, &str) = match i % 4 {
+        0 => ("direct", "channel<int>", "results", "m"),
+        1 => ("in-struct", "Carrier", "Carrier(results, 7)", "m.ch"),
+        2 => ("in-array", "array<channel<int>>", "[results]", "m[0]"),
+        _ => ("in-variant", "option<channel<int>>", "option.some(results)", "unwrap_ch(m)"),
+    };
+    let fate = (i / 4) % 3;
+    let fate_name = ["sender-finishes", "sender-drops-handle-and-collects", "sender-stays-alive"][fate];
+    s.push_str(&format!("let handoff: channel<{ty}> = channel()\nlet fin: channel<bool> = channel()\n"));
+    // the sender: the inner channel is local to a function, so the handle is dropped when it returns
+    s.push_str(&format!("fn produce(h: channel<{ty}>) -> void {{\n  let results: channel<int> = channel()\n"));
+    for k in 0..n {
+        s.push_str(&format!("  results.write({})\n", base + k));
+    }
+    s.push_str(&format!("  h.write({wrap})\n"));
+    for k in 0..extra {
+        s.push_str(&format!("  results.write({})\n", base + n + k));
+    }
+    s.push_str("}\n");
+    s.push_str("task {\n  produce(handoff)\n");
+    match fate {
+        0 => {}
+        1 => s.push_str("  var j = 0\n  while j < 1500 {\n    let junk = \"g\" .. j\n    j = j + 1\n  }\n  fin.read()\n"),
+        _ => s.push_str("  fin.read()\n"),
+    }
+    s.push_str("}\n");
+    // the receiver is busy first
+    let busy = rng.range(200, 3000);
+    s.push_str(&format!("var busy = 0\nfor i in {busy} {{\n  busy = busy + i\n}}\nlet m = handoff.read()\nlet r = {unwrap}\nr.write(0 - 1)\nvar got = r.read()\nwhile got != 0 - 1 {{\n  println(got)\n  got = r.read()\n}}\nprintln(\"end\")\n"));
+    if fate != 0 {
+        s.push_str("fin.write(true)\n");
+    }
+    let mut expected: Vec<String> = (0..n + extra).map(|k| format!("{}", base + k)).collect();
+    expected.push("end".into());
+    Job {
+        src: s,
+        class: format!("value:handover-{carrier}-{fate_name}:handover"),
+        expected: Some(expected),
+        oracle: None,
+        model: None,
+        alias_model: None,
+        send_model: None,
+        scheds: schedules(rng),
+    }
+}
+
 fn gen_pc_job(rng: &mut Rng) -> Job {
     let (mut src, info) = gen_pc(rng);
     let mut class = format!("pc:{}:{:?}", info.shape, info.payload);
@@ -279,6 +335,9 @@ fn main() {
         if i % 2 == 1 {
             jobs.push(gen_snapshot(&mut ctx.rng, i / 2));
         }
+        if i % 5 == 0 {
+            jobs.push(gen_handover(&mut ctx.rng, i / 5));
+        }
         if i % 2 == 0 {
             // shared and cyclic payloads (a channel read copies with a fresh map, fix 0cb8741)
             let c = gen_alias_channel(&mut ctx.rng, i / 2);
@@ -293,6 +352,20 @@ fn main() {
                 scheds: schedules(&mut ctx.rng),
             });
         }
+    }
+    // every constructor at every nesting position, transported as a channel message
+    for c in nested_grid(&mut ctx.rng, n / 8, true) {
+        let send_model = c.model.map(|(m, _)| m);
+        jobs.push(Job {
+            src: c.src,
+            class: "value:nested-grid:grid".to_string(),
+            expected: Some(c.expected),
+            oracle: None,
+            model: None,
+            alias_model: None,
+            send_model,
+            scheds: schedules(&mut ctx.rng),
+        });
     }
     // every program runs in a child process (batches of 8): a defect that aborts the process is
     // attributed to the program that was running
@@ -338,7 +411,7 @@ fn main() {
         if cls.len() > 3 {
             ctx.count("with-blocked-reader");
         }
-        let prog = || j.src.replace(DECLS, "").replace(ALIAS_DECLS, "").replace(PC_PRELUDE, "").replace('\n', "\\n");
+        let prog = || j.src.replace(DECLS, "").replace(ALIAS_DECLS, "").replace(NEST_HELPERS, "").replace(PC_PRELUDE, "").replace('\n', "\\n");
         if let Some(d) = &r.died {
             ctx.count("child-died");
             ctx.spec_fail(format!("{d} :: {}", prog()));
